@@ -87,6 +87,15 @@ macro_rules! check_windows {
         })?;
         ensure_eq!(i2.0, rw2.len(), "{} index windows 2: len", $what);
         ensure_eq!(i2.1, rw2, "{} block_hash_2_index_windows", $what);
+        // the advertised widths of the two encodings describe exactly these values: 7 symbols x 6 bits, plus 5 bits
+        // of effective block size on top
+        {
+            use ssdeep::block_hash::{IndexWindows, NumericWindows};
+            ensure_eq!((NumericWindows::BITS, NumericWindows::MASK), (42, (1u64 << 42) - 1), "NumericWindows::BITS / MASK");
+            ensure_eq!((IndexWindows::BITS, IndexWindows::MASK), (47, (1u64 << 47) - 1), "IndexWindows::BITS / MASK");
+            ensure!(n1.1.iter().chain(n2.1.iter()).all(|&w| w <= NumericWindows::MASK), "{} a numeric window exceeds NumericWindows::MASK", $what);
+            ensure!(i1.1.iter().chain(i2.1.iter()).all(|&w| w <= IndexWindows::MASK), "{} an index window exceeds IndexWindows::MASK", $what);
+        }
         // injectivity of the numeric encoding on this hash: equal numbers <=> equal slices
         for (x, wx) in r.bh1.windows(7).enumerate() {
             for (y, wy) in r.bh1.windows(7).enumerate() {
